@@ -81,7 +81,10 @@ CLAIMED["C11"] = dict(
     design_ref="DESIGN.md section 3, C11",
     note="Trusted: summaries of tensortrax.math / jax.numpy; eigvalsh is a symmetric function of the eigenvalue multiset; for the "
     "micro-sphere models the 21-point rule is replaced by an exact rule with the same second moments (which C05 proves for the "
-    "real rule up to its literal precision). MORPH at the exact virgin state (0/0) is not decided.",
+    "real rule up to its literal precision). MORPH at the exact virgin state (0/0) is not decided. One KNOWN FINDING is reported on the "
+    "unchanged tree (known_findings.txt): tensortrax morph hands a non-symmetric matrix to its symmetric-only expm, so P F^T is not symmetric for "
+    "histories that are not coaxial with C; every other violation is still reported. The sibling identity of the Lagrange models (C12.O1) and the "
+    "AD-wrapper algebra (C03.O9) are included.",
     technique="algebraic value numbering in a quotient ring (symbolic rotations), jets at the reference state, scaling identities",
 )
 CLAIMED["C12"] = dict(
@@ -96,7 +99,9 @@ CLAIMED["C12"] = dict(
     design_ref="DESIGN.md section 3, C12",
     note="Trusted: backend idioms are mapped to the same abstract operations (fverif/admodels.py); the jax-only eigenvalue "
     "regularisation C + diag(+-1e-4) is recognised, logged and treated as C (a larger shift is reported); the Lagrange (stress-type) "
-    "models are compared with F in principal axes. Initial moduli vs docstrings (O6) are not yet checked.",
+    "models are compared with F in principal axes. Initial moduli vs docstrings (O6) are declined (free-form docstring mathematics). One KNOWN FINDING is reported on the "
+    "unchanged tree (known_findings.txt): the MORPH backends pass a non-symmetric matrix to eigvalsh / tensortrax expm and differ by 6 % for "
+    "non-coaxial histories; every other violation is still reported. Huge expressions are first compared at an exact rational point.",
     technique="algebraic value numbering of sibling implementations; equality of canonical forms",
 )
 
@@ -145,7 +150,8 @@ CLAIMED["C06"] = dict(
     "with a default rule whose documented exactness covers the degree of products of the element's gradients (from C04's polynomials).",
     design_ref="DESIGN.md section 3, C06",
     note="Not decided (sums over runtime data; they follow from these identities with C04 and C05): volumes summing to the geometric "
-    "volume on a concrete mesh, equality across element families, rigid-motion invariance, float32 copies. Reproduction of "
+    "volume on a concrete mesh, equality across element families, rigid-motion invariance, float32 arithmetic (the cast / copy / reload bookkeeping of the cached arrays is decided: O7; shared default "
+    "schemes: O8). Reproduction of "
     "higher-order polynomials on affine cells follows from the push-forward identities and C04's completeness.",
     technique="algebraic value numbering of Region.reload and the field kernels on symbolic cells; degree computation on the element polynomials",
 )
@@ -189,8 +195,9 @@ CLAIMED["C16"] = dict(
     "quad8/9, hexahedron20/27); line / rectangle / cube generators with symbolic bounds; translate, rotate (distances preserved for a "
     "symbolic angle); concatenate, stack, dual, merge_duplicate_points bookkeeping.",
     design_ref="DESIGN.md section 3, C16",
-    note="Not decided: Circle / Triangle generators (scipy griddata), the rounding-tolerance clause of merge_duplicate_points on runtime "
-    "coordinates, arbitrary compositions on concrete meshes (each transformation is covered on its own).",
+    note="Circle and Triangle generators are evaluated from source (griddata summarised for its one use, trig constants to 80 digits "
+    "where np.round needs them) for radii 1e-10 ... 1e7. Not decided: the rounding-tolerance clause of merge_duplicate_points for binary "
+    "floats near a rounding boundary, arbitrary compositions on concrete meshes (each transformation is covered on its own).",
     technique="constant-table analysis with exact rational geometry; algebraic value numbering for symbolic coordinates",
 )
 
